@@ -267,6 +267,40 @@ pub fn gen(seed: u64, tier: &str) -> Vec<String> {
         let specs: Vec<AssetSpec> = (0..n).map(|_| rand_spec(&mut rng)).collect();
         push(&mut lines, flags, &specs);
     }
+    // strings outside the codec's domain in every string-bearing position (0 = name, 1..=33 the
+    // flagged strings) x placement of the offending character (last, first, middle, only):
+    // `serialize` must refuse them — or, if it accepts, re-read exactly the value (oracle).
+    let mut planted = |rng: &mut Rng, lines: &mut Vec<String>, position: usize, bad: String| {
+        let n = rng.range(1, 3) as usize;
+        let mut specs: Vec<AssetSpec> = (0..n).map(|_| rand_spec(rng)).collect();
+        let k = rng.below(n as u64) as usize;
+        if position == 0 {
+            specs[k].name = Some(bad);
+        } else {
+            *str_field(&mut specs[k], position) = Some(bad);
+        }
+        push(lines, rng.next() as u32, &specs);
+    };
+    let mut ci = 0;
+    let rounds = if thorough { 4 } else { 1 };
+    for _ in 0..rounds {
+        for position in 0..=33 {
+            for placement in 0..4 {
+                let c = super::aset::UNENCODABLE[ci % super::aset::UNENCODABLE.len()];
+                ci += 1;
+                let bad = super::aset::plant(&mut rng, c, placement);
+                planted(&mut rng, &mut lines, position, bad);
+            }
+        }
+    }
+    for c in super::aset::LOSSY.iter() {
+        for _ in 0..4 {
+            let position = rng.range(0, 33) as usize;
+            let placement = rng.below(4) as usize;
+            let bad = super::aset::plant(&mut rng, c, placement);
+            planted(&mut rng, &mut lines, position, bad);
+        }
+    }
     lines
 }
 
